@@ -132,7 +132,14 @@ where
         }
 
         let payload_offset = FlexVec::<T, L>::OFFSET_SIZE;
-        if payload_offset > next_offset || payload_offset > data.bytes().len() || (!last && next_offset > data.bytes().len()) {
+        if payload_offset > next_offset {
+            // The offset points inside its own slot: no amount of further data can make it valid.
+            return Some(Err(Error {
+                kind: ErrorKind::InvalidData,
+                pos: self.pos,
+            }));
+        }
+        if payload_offset > data.bytes().len() || (!last && next_offset > data.bytes().len()) {
             return Some(Err(Error {
                 kind: ErrorKind::InsufficientSize,
                 pos: self.pos + payload_offset,
